@@ -144,6 +144,7 @@ class DumpFile:
 
     def __init__(self, path, text):
         self.path = path
+        self.text = text
         with open(path, "w", encoding="utf-8") as f:
             f.write(text)
         self.off = {0: 0}
@@ -249,7 +250,8 @@ def build_file(L, rep, fcase, tmp):
 
 def replay_run(L, rep, df, run):
     kind, nd = run["kind"], run["fd"]["nd"]
-    ctx = {"t": "run", "fd": run["fd"], "kind": kind, "par": run["par"]}
+    ctx = {"t": "run", "fd": run["fd"], "kind": kind, "par": run["par"], "all_steps": run["steps"]}
+    ctx["file_text"] = df.text
     if kind == "additions":
         try:
             res = L.H.read_additions(df.path, run["par"])
@@ -696,6 +698,32 @@ def corrupt_selftest(chk, sessions):
 
 # ----------------------------------------------------------------------------
 
+def do_replay(L, chk, stored, tmp):
+    """Re-runs one stored violation against the current tree and prints expected vs observed."""
+    case = stored["case"]
+    print(f"clause: {stored['clause']}")
+    rep = Reporter(chk)
+    t = case.get("t")
+    if t in ("gsd", "gsd_dcd"):
+        replay_gsd(L, rep, dict(case, exp=case["expected"]), 0)
+    elif t == "log":
+        replay_log(L, rep, dict(case, exp=case["expected"]), tmp, 0)
+        replay_log(L, rep, dict(case, exp=case["expected"]), tmp, 1)
+    elif t == "run" and "file_text" in case:
+        df = DumpFile(os.path.join(tmp, "replay.atom"), case["file_text"])
+        replay_run(L, rep, df, {"fd": case["fd"], "kind": case["kind"], "par": case["par"], "steps": case["all_steps"]})
+    else:
+        print(json.dumps(case, indent=1)[:6000])
+        return 0
+    if chk.violations:
+        for clause, c in chk.violations:
+            print("STILL VIOLATED:", clause)
+            print(json.dumps({k: v for k, v in c.items() if k in ("expected", "observed", "error", "step")}, indent=1)[:3000])
+        return 1
+    print("no violation on the current tree")
+    return 0
+
+
 def tlc_part(chk, part, tier, nshards):
     cfg = dict(constants={"Tier": tier, "Part": part, "Gen": True, "SCALE": SCALE}, invariants=INVS + ["Emit"])
     if nshards > 1:
@@ -732,9 +760,7 @@ def run(tier, replay=None):
     tmp = common.scratch_dir("verif_c19_")
     try:
         if replay:
-            case = common.load_replay(replay)["case"]
-            print(json.dumps(case, indent=1)[:6000])
-            return 0
+            return do_replay(L, chk, common.load_replay(replay), tmp)
         # ---------------- direction A
         cases = tlc_part(chk, "dump", tier, 8 if tier == "quick" else 16)
         files = {json.dumps(c["fd"], sort_keys=True): c for c in cases if c["t"] == "file"}
